@@ -36,10 +36,14 @@ Task: produce THREE different changes. Each change must
      never a change that targets a test or special-cases an input, and only under src/easynetwork/;
   2. BREAK THE PROPERTY in {base}/property.json on some input, schedule, cancellation point or history that you can exhibit
      against the real code;
-  3. keep the existing tests passing: run the relevant test directories (at least tests/unit_test and the relevant parts of
-     tests/functional_test) on the unchanged worktree first (baseline, junit xml), then with each change, and compare the sets
-     of passing test ids: every test that passed at baseline must still pass. A change that makes a baseline-passing test
-     fail is discarded (say so in your notes and find another one);
+  3. keep the existing tests passing. The whole suite runs in about 3 minutes with EXACTLY this command (run it from the
+     worktree root, without naming test directories and without -n; otherwise the async tests error at set-up):
+        cd {base}/wt && PYTHONPATH={base}/wt/src timeout 1500 /venv/bin/python -m pytest -ra -q -p no:cacheprovider \
+            --timeout=900 --continue-on-collection-errors --junitxml=<file>
+     (about 7900 tests pass on the unchanged worktree; a few hundred fail or error because trio / cbor2 / msgpack / trustme
+     are not installed — identical with and without your change). Run it on the unchanged worktree first (baseline junit
+     xml), then with each change, and compare the sets of passing test ids: every test that passed at baseline must still
+     pass. A change that makes a baseline-passing test fail is discarded (say so in your notes and find another one);
   4. use a mechanism different from your other two changes and from the changes already seeded for this property in
      earlier rounds:
 {chr(10).join(earlier) if earlier else "  (none)"}
